@@ -16,7 +16,8 @@
               Term1 ::= Num | - Num | n | n ( Args ) | ( Term )
             with the 18 `if` productions: 6 general, 6 `t cmp 0` (terminal r"cmp\s*0") and 6 flipped
             `0 cmp t` (terminal r"0\s*cmp"; the action stores the mirrored sort).
-            `i64::from_str(s).unwrap()` panics above i64::MAX: the model answers None.
+            A literal above i64::MAX is rejected by the action of Num (a panic before /repo commit 57bde9f,
+            a ParseError::User since): the model answers None.
    Fuel: every function takes fuel and calls with the predecessor; [parse] supplies
    8 * |tokens| + 16.  No proofs here. *)
 From Coq Require Import List ZArith NArith String Ascii Bool.
